@@ -948,7 +948,9 @@ class Run:
         self.worlds = [World(p) for p in self.sc['world']['worlds']]
         self.trace.log(ev='world', n=len(self.worlds))
         if sum(self.twins.n_decorated.values()) == 0:
-            raise HarnessError('no decorated (cached) methods found: __wrapped__ missing everywhere')
+            # no method exposes __wrapped__ (caching removed or implemented differently): the twin is then the class itself
+            # evaluated on a fresh object, which is still an independent recomputation
+            self.stats.probe('no_wrapped_attribute_anywhere')
         mode = self.cfg.get('gc_mode', 'manual')
         gc.collect()
         if mode == 'manual':
